@@ -712,6 +712,18 @@ func (en *Env) evalOverlayCall(fobj *types.Func, decl *ast.FuncDecl, n *ast.Call
 	switch name {
 	case "old":
 		return en.with(en.old).eval(n.Args[0])
+	case "iter":
+		// the value at the head of the current iteration of the unit's loop 0 (after the
+		// invariant was assumed): heap and locals of that moment
+		if en.fr == nil || en.fr.iterHeap == nil {
+			unsupportedf("iter(...) outside loop 0 of the unit")
+		}
+		c := *en
+		c.heap = en.fr.iterHeap
+		f2 := *en.fr
+		f2.cells = en.fr.iterCells
+		c.fr = &f2
+		return c.eval(n.Args[0])
 	case "__imp":
 		return TV(Imp(en.evalT(n.Args[0]), en.evalT(n.Args[1])))
 	case "ite":
